@@ -603,6 +603,29 @@ func (s *Server) serveErrorDocument(w http.ResponseWriter, r *http.Request,
 		return
 	}
 
+	// The error document is an object like any other: the authorizer decided about
+	// the key the client asked for, not about this one. Serve it only to callers
+	// who may read it; everybody else gets the default HTML error.
+	isAuthenticated, _ := ctx.Value(authentication.IsAuthenticatedContextKey{}).(bool)
+	var accessKeyId *string
+	if isAuthenticated {
+		keyIdStr, _ := ctx.Value(authentication.AccessKeyIdContextKey{}).(string)
+		accessKeyId = &keyIdStr
+	}
+	bucketStr := bucketName.String()
+	errorKeyStr := errorKey.String()
+	allowed, err := s.requestAuthorizer.AuthorizeRequest(ctx, &authorization.Request{
+		Operation:     authorization.OperationGetObject,
+		Authorization: authorization.Authorization{AccessKeyId: accessKeyId},
+		Bucket:        &bucketStr,
+		Key:           &errorKeyStr,
+		HttpRequest:   makeAuthorizationHTTPRequest(r),
+	})
+	if err != nil || !allowed {
+		s.writeHTMLError(w, statusCode, code, message)
+		return
+	}
+
 	object, readers, err := s.storage.GetObject(ctx, bucketName, errorKey, nil, nil)
 	if err != nil {
 		// Error document not found — fall back to default HTML error
